@@ -18,6 +18,37 @@ claim("C12", PROOF,
       "Trusted: go/ssa builder, govc, solvers. Stated assumption: fewer than 2^64 results (Total < MaxUint64). The fmt/tabwriter output characters are library code.",
       "DESIGN.md 8/C12")
 
+CONC = PROOF + "; ghost event automata, monitor invariant, lock discipline and rely/guarantee obligations per function; composition across goroutines by stated (trusted) lemmas"
+
+claim("C02", CONC,
+      "Per-function proofs for every schedule: (1) the attack goroutine (Attack$1 with its deferred closure) on EVERY exit path runs close(ticks); wg.Wait(); close(results); Stop() in exactly this order, never sends a tick after closing, and registers every worker with the WaitGroup before starting it; "
+      "(2) the worker delivers exactly one result per received tick, the one hit returned, and calls Done once; (3) hit always returns a non-nil result, takes its sequence number inside the seqmu critical section where it is incremented by exactly one (so numbers are gap-free: monitor), and calls Stop when the targeter fails; "
+      "(4) Stop, verified under interference (shared ghost flags havocked at every yield point under a monotone rely), returns true iff this call's Once function closed the stop channel.",
+      "Trusted lemma (not checked): unbuffered-channel, WaitGroup and sync.Once semantics compose (1)-(4) into 'every started hit yields exactly one result before results is closed' and 'exactly one Stop caller gets true'. Not covered: no goroutine left behind / liveness of shutdown (needs a fairness assumption on the consumer); the CLI signal pump in package main. Stubs: sync, time, http, io.",
+      "DESIGN.md 8/C02")
+
+claim("C03", CONC,
+      "Proof for all configurations: Attack starts exactly min(workers, max-workers) workers on unbuffered channels; in the attack goroutine workers never exceeds max-workers (loop invariant workers == initial + spawned <= maxWorkers), a worker is spawned only when workers < max, the non-blocking tick is attempted only below max, and every spawn is followed by the blocking select that contains the tick send; the worker handles one tick at a time (one hit, one result per tick).",
+      "Trusted lemma (not checked): at most one hit in flight per worker and workers <= max imply in-flight <= max. Not covered: the timing clause 'starts as soon as one result has been consumed' (scheduler).",
+      "DESIGN.md 8/C03")
+
+claim("C04", CONC,
+      "Proof against an ADVERSARIAL pacer (type contract without postcondition) and a ghost clock with lower bounds only: before every hit Pace is called exactly once with hits == number released so far and elapsed == clock - start, non-decreasing, and never after the duration has elapsed; Sleep is called with exactly the returned wait before the tick is sent; no tick is sent when the pacer said stop; every exit path shuts the attack down.",
+      "Trusted: a worker starts a hit only after receiving the tick (channel causality). Stated assumptions: attack shorter than 292 years (elapsed fits int64), fewer than 2^62 hits. Stubs: time.Since/Sleep (clock never goes back; Sleep(d) lasts at least d).",
+      "DESIGN.md 8/C04")
+
+claim("C05", CONC,
+      "Proof: in hit the timestamp's clock read, the read of the sequence number and its increment all lie between Lock and Unlock of the same seqmu section (lock discipline obligations on every access to attack.seq; monitor assertion at Unlock: Seq == seq at Lock, seq incremented by one, Timestamp >= timestamp issued by the previous section), so sequence order and timestamp order agree for any number of workers; "
+      "Timestamp >= attack start and <= the clock when the request is handed to the transport; the deferred closure runs on every exit path: Latency >= 0, Timestamp+Latency <= now, Latency >= time spent in client.Do.",
+      "Trusted: mutex mutual exclusion (the monitor invariant lastTs <= clock is assumed at Lock, proved at Unlock), monotonic clock. Stated assumption: attack shorter than 292 years.",
+      "DESIGN.md 8/C05")
+
+claim("C06", PROOF,
+      "Proof over assumed net/http and io contracts (response body as an abstract stream with remaining/fault/closed ghost state): on every path of hit the result carries the attack name and the section's sequence number, the target's method and URL once the targeter succeeded, BytesIn == len(Body) (also after a read error), at most max-body bytes captured; an empty error implies a completed exchange with status in [200,400) and on completed exchanges Error is empty exactly for those codes; "
+      "after a successful Do the body is closed on every path and read to its end unless a read failed; the request handed to the transport has the target's method and URL and carries X-Vegeta-Seq == the result's sequence number and X-Vegeta-Attack iff the attack is named.",
+      "Trusted: stubs for http.NewRequest/Client.Do/Header.Set, io.ReadAll/LimitReader/Copy, error.Error (library error texts non-empty); trusted contract of Target.Request (header copy without canonicalisation is NOT verified yet). Not covered: bytes on the wire, redirect policy closure, chunked option beyond the append.",
+      "DESIGN.md 8/C06")
+
 claim("C10", PROOF,
       "Proof: (*Metrics).Add, (*LatencyMetrics).Add and (*Metrics).Close are verified against contracts transcribed from the documented definitions: every aggregate (request count, status-code histogram over all keys, byte totals, latency total/max/min, earliest/latest/end, success count, error set and list) is exactly one fold step of its definition with every other key/field unchanged (whole-view postconditions + frame), "
       "under the representation invariant wf-* that Add re-establishes; Close computes every derived field (duration, wait, rate, throughput, byte means, success ratio, latency mean) as its documented expression over base fields and writes no base field, so it is idempotent and interleavable; lemmas show two fold steps commute (order independence). Percentiles are excluded (C11).",
@@ -48,6 +79,6 @@ claim("C18", PROOF,
       "Trusted: go/ssa builder, govc, solvers, assumed contracts of net.ParseIP / net.IP.To4 (uninterpreted isIP/isV4).",
       "DESIGN.md 8/C18")
 
-for p in ["C02","C03","C04","C05","C06","C07","C08","C09","C14","C15","C16","C17"]:
+for p in ["C07","C08","C09","C14","C15","C16","C17"]:
     na(p, "check not built yet (contracts planned in DESIGN.md section 8; engine features pending)")
 na("C11", "not applicable to contract-based verification: the property is the numerical accuracy of the external floating-point t-digest estimator (github.com/influxdata/tdigest); the in-repo code is three one-line delegations, so a contract could only restate an assumed contract of the library, which is the property itself (DESIGN.md section 9)")
